@@ -76,3 +76,27 @@ impl Sym for String {
 		match String::from_utf8(v) { Ok(s) => s, Err(_) => { kani::assume(false); unreachable!() } }
 	}
 }
+impl<K: Sym + Ord, V: Sym> Sym for BTreeMap<K, V> {
+	fn sym(c: usize) -> Self {
+		let mut m = BTreeMap::new();
+		let mut i = 0;
+		while i < c { m.insert(K::sym(0), V::sym(0)); i += 1; }
+		m
+	}
+}
+impl<K: Sym + Ord> Sym for BTreeSet<K> {
+	fn sym(c: usize) -> Self {
+		let mut m = BTreeSet::new();
+		let mut i = 0;
+		while i < c { m.insert(K::sym(0)); i += 1; }
+		m
+	}
+}
+impl<K: Sym + Ord> Sym for BinaryHeap<K> {
+	fn sym(c: usize) -> Self {
+		let mut m = BinaryHeap::new();
+		let mut i = 0;
+		while i < c { m.push(K::sym(0)); i += 1; }
+		m
+	}
+}
